@@ -58,6 +58,17 @@ func Run(mod *ir.Module, fn *ir.Function) {
 	// not roots. But if the local itself is live (has a live load),
 	// the stored value must also be live so its emit range is preserved.
 	markLiveLocalStoreValues(fn, live, deadLocals)
+	// A value stored into a live local may itself load another local
+	// (var a = array(v[0], ...)), which only becomes live now. Repeat
+	// until the set of dead locals is stable; it can only shrink.
+	for {
+		next := findDeadLocals(fn, live)
+		if len(next) == len(deadLocals) {
+			break
+		}
+		deadLocals = next
+		markLiveLocalStoreValues(fn, live, deadLocals)
+	}
 
 	// Phase 2b-fixup: after local-store propagation, some ExprCallResult
 	// handles may have become live through local store chains. Retroactively
